@@ -35,6 +35,8 @@ theorem parseVariants_arms : ∀ (vs : List VariantDecl) (idx : Nat) (accum : In
     simp only at h
     split at h
     · cases h
+    split at h
+    · cases h
     · split at h
       · cases h
       · split at h
